@@ -102,8 +102,14 @@ func (blockExec *BlockExecutor) CreateProposalBlock(
 
 	evidence, evSize := blockExec.evpool.PendingEvidence(state.ConsensusParams.Evidence.MaxBytes)
 
-	// Fetch a limited amount of valid txs
-	maxDataBytes := types.MaxDataBytes(maxBytes, evSize, state.Validators.Size())
+	// Fetch a limited amount of valid txs. The LastCommit included in the block
+	// has one signature slot per validator of the previous height
+	// (state.LastValidators), which can be a bigger set than the current one.
+	valsCount := state.Validators.Size()
+	if state.LastValidators != nil && state.LastValidators.Size() > 0 {
+		valsCount = state.LastValidators.Size()
+	}
+	maxDataBytes := types.MaxDataBytes(maxBytes, evSize, valsCount)
 
 	txs := blockExec.mempool.ReapMaxBytesMaxGas(maxDataBytes, maxGas)
 
